@@ -74,6 +74,7 @@ type g15 struct {
 	objOf    map[string]string
 	hist     []string
 	shape    map[string]bool
+	stable   map[string]string // admin -> last settled role status seen
 }
 
 func (g *g15) proposal(id string) (*govProposal, string) {
@@ -110,12 +111,31 @@ func (g *g15) availableAdmins() map[string]bool {
 
 // transitionalAdmins: admins with a pending lifecycle operation; the statement does not say
 // whether they count as available, so votes by them are not judged.
+// Two transitional states are not ambiguous: "activating" is only reachable from frozen, and
+// "logouting" reached from frozen - an admin who was unavailable before the pending operation and
+// whose operation is not approved yet is unavailable. g.stable remembers the last settled status.
 func (g *g15) transitionalAdmins() map[string]bool {
 	out := map[string]bool{}
+	if g.stable == nil {
+		g.stable = map[string]string{}
+	}
 	for _, k := range g.admins {
-		switch st, _ := g.roleStatus(k.Addr.String()); st {
-		case "freezing", "logouting", "activating", "binding", "updating":
-			out[k.Addr.String()] = true
+		a := k.Addr.String()
+		switch st, _ := g.roleStatus(a); st {
+		case "freezing", "binding", "updating":
+			out[a] = true
+		case "activating":
+			g.shape["admin:activating-is-unavailable"] = true
+			g.w.Count("obs_admin_seen_activating", 1)
+		case "logouting":
+			if g.stable[a] == "frozen" {
+				g.shape["admin:logouting-from-frozen-is-unavailable"] = true
+				g.w.Count("obs_admin_seen_logouting_from_frozen", 1)
+			} else {
+				out[a] = true
+			}
+		case "available", "frozen", "forbidden", "unavailable":
+			g.stable[a] = st
 		}
 	}
 	return out
@@ -154,7 +174,29 @@ func (g *g15) submit() string {
 	svc := chain + ":" + []string{"s1", "s2"}[r.Intn(2)]
 	var tx pb.Transaction
 	var kind string
-	switch r.Intn(9) {
+	pick := r.Intn(9)
+	// a frozen admin asks (or is asked) to be activated or logged out: while that is pending the admin
+	// is still unavailable
+	var frozenAdmin *harness.Key
+	for _, k := range g.admins {
+		if st, _ := g.roleStatus(k.Addr.String()); st == "frozen" {
+			frozenAdmin = k
+		}
+	}
+	if frozenAdmin != nil && r.Intn(2) == 0 {
+		pick = 100
+	}
+	switch pick {
+	case 100:
+		if r.Intn(2) == 0 {
+			caller := adm
+			if r.Intn(2) == 0 {
+				caller = frozenAdmin
+			}
+			tx, kind = w.BVM(caller, harness.AddrRole, "ActivateRole", pb.String(frozenAdmin.Addr.String()), pb.String("r")), "role-lifecycle-of-frozen-admin"
+		} else {
+			tx, kind = w.BVM(frozenAdmin, harness.AddrRole, "LogoutRole", pb.String(frozenAdmin.Addr.String()), pb.String("r")), "role-lifecycle-of-frozen-admin"
+		}
 	case 0:
 		tx, kind = w.BVM(ca, harness.AddrService, "UpdateService", pb.String(svc), pb.String(fmt.Sprintf("nm%d", r.Intn(1e6))), pb.String("i"), pb.String(""), pb.String("d"), pb.String("r")), "service-update"
 	case 1:
@@ -173,8 +215,15 @@ func (g *g15) submit() string {
 		c := g.admins[len(g.admins)-1-r.Intn(2)]
 		tx, kind = w.BVM(adm, harness.AddrRole, "RegisterRole", pb.String(c.Addr.String()), pb.String("governanceAdmin"), pb.String(""), pb.String("r")), "role-register"
 	default:
-		c := g.admins[len(g.admins)-1-r.Intn(2)]
-		tx, kind = w.BVM(adm, harness.AddrRole, []string{"FreezeRole", "ActivateRole", "LogoutRole"}[r.Intn(3)], pb.String(c.Addr.String()), pb.String("r")), "role-lifecycle"
+		// the last genesis admin and the two candidates go through freeze / activate / logout, the
+		// latter two also on their own behalf
+		c := []*harness.Key{g.admins[len(g.admins)-1], g.admins[len(g.admins)-2], g.admins[len(g.admins)-3], g.admins[len(g.admins)-3]}[r.Intn(4)]
+		op := []string{"FreezeRole", "FreezeRole", "ActivateRole", "LogoutRole"}[r.Intn(4)]
+		caller := adm
+		if op != "FreezeRole" && r.Intn(2) == 0 {
+			caller = c
+		}
+		tx, kind = w.BVM(caller, harness.AddrRole, op, pb.String(c.Addr.String()), pb.String("r")), "role-lifecycle"
 	}
 	res, err := w.Exec(tx)
 	if err != nil {
@@ -184,12 +233,19 @@ func (g *g15) submit() string {
 	if rc.Status != pb.Receipt_SUCCESS {
 		g.w.Count("submissions_refused", 1)
 		g.hist = append(g.hist, fmt.Sprintf("h%d submit %s refused: %.60s", res.Height, kind, string(rc.Ret)))
+		if debug {
+			fmt.Fprintln(os.Stderr, g.hist[len(g.hist)-1], string(rc.Ret))
+		}
 		return ""
 	}
 	pid := harness.ProposalID(rc)
 	g.shape[kind] = true
 	g.w.Count("proposals_submitted", 1)
 	g.hist = append(g.hist, fmt.Sprintf("h%d submit %s -> %s", res.Height, kind, pid))
+	if debug && frozenAdmin != nil {
+		st, _ := g.roleStatus(frozenAdmin.Addr.String())
+		fmt.Fprintln(os.Stderr, g.hist[len(g.hist)-1], "frozen admin now:", st, "stable:", g.stable[frozenAdmin.Addr.String()])
+	}
 	return pid
 }
 
@@ -325,6 +381,7 @@ func gov15Case(w *vlog.W, a *wargs, id int, rng *rand.Rand, opts harness.Options
 	objTyp := map[string]string{}
 	steps := 60
 	for s := 0; s < steps; s++ {
+		g.transitionalAdmins() // keeps the record of the admins' last settled status current
 		events := map[string]bool{} // objects with a governance event in this step
 		var actDesc string
 		x := rng.Intn(100)
@@ -351,6 +408,12 @@ func gov15Case(w *vlog.W, a *wargs, id int, rng *rand.Rand, opts harness.Options
 			switch y := rng.Intn(10); {
 			case y < 7:
 				voter = g.admins[rng.Intn(len(g.admins))]
+				// an admin who is frozen with a pending activation / logout is the interesting voter
+				for _, k := range g.admins {
+					if st, _ := g.roleStatus(k.Addr.String()); (st == "activating" || st == "logouting" && g.stable[k.Addr.String()] == "frozen") && rng.Intn(2) == 0 {
+						voter = k
+					}
+				}
 			case y < 8:
 				voter = outsider
 			default:
